@@ -12,6 +12,11 @@
 //! direct: input = (-1 cfg input target (seed-hi seed-lo) file marks): `preprocessing(cfg)` applied to one item;
 //!         output = (0) constructor panics | (1 input target marks rep) | (2 rep) Err | (-777) the call panics
 //! cfg encoding: see Pipeline_Model.v_cfg
+//! exact:  input = (-2 files strategy (seed-hi seed-lo) epoch pcfg (g tokenizer) lim skip ff rank W sort shuffle prefetch
+//!                  blim ty threads buffer threads2 buffer2): one real loader run (+ a second one with threads2/buffer2);
+//!         files = lists of lines, a line = () (no valid item) | (input target); pcfg = (0 cfg) | (1 (cfg ..));
+//!         tokenizer = (tokens pad prefix suffix padto?)
+//!         output = (1 min_items batches same) | (0) init fails;  batches = lists of items (input target token_ids labels)
 use std::collections::hash_map::DefaultHasher;
 use std::collections::HashMap;
 use std::hash::{Hash, Hasher};
@@ -803,11 +808,514 @@ fn direct_run(input: &Val) -> Option<(Val, Vec<String>)> {
     Some((Val::L(out), tags))
 }
 
+
+// ---------------------------------------------------------------------------------------------
+// exact loader line: everything the model needs is in the input, nothing is computed with the crate
+// ---------------------------------------------------------------------------------------------
+
+#[derive(Clone, Debug)]
+struct TokSpec {
+    tokens: Vec<String>,
+    pad: String,
+    prefix: Vec<String>,
+    suffix: Vec<String>,
+    padto: Option<usize>,
+}
+
+#[derive(Clone, Debug)]
+struct XSpec {
+    files: Vec<Vec<Option<(String, String)>>>,
+    strategy: i64,
+    seed: u64,
+    epoch: usize,
+    per_source: bool,
+    cfgs: Vec<MCfg>,
+    g: bool,
+    tok: TokSpec,
+    lim: i64,
+    skip: usize,
+    ff: usize,
+    rank: usize,
+    world: usize,
+    sort: bool,
+    shuffle: bool,
+    prefetch: usize,
+    blim: usize,
+    ty: i64,
+    threads: u8,
+    buffer: usize,
+    threads2: u8,
+    buffer2: usize,
+}
+
+fn strs_val(l: &[String]) -> Val {
+    Val::L(l.iter().map(|s| Val::str(s)).collect())
+}
+fn val_strs(v: &Val) -> Option<Vec<String>> {
+    v.as_l()?.iter().map(|s| s.to_string_lossy()).collect()
+}
+
+impl XSpec {
+    fn to_val(&self) -> Val {
+        let files = Val::L(
+            self.files
+                .iter()
+                .map(|f| {
+                    Val::L(
+                        f.iter()
+                            .map(|l| match l {
+                                None => Val::L(vec![]),
+                                Some((i, t)) => Val::L(vec![Val::str(i), Val::str(t)]),
+                            })
+                            .collect(),
+                    )
+                })
+                .collect(),
+        );
+        let pcfg = if self.per_source {
+            Val::L(vec![Val::I(1), Val::L(self.cfgs.iter().map(|c| c.to_val()).collect())])
+        } else {
+            Val::L(vec![Val::I(0), self.cfgs[0].to_val()])
+        };
+        let tok = Val::L(vec![
+            strs_val(&self.tok.tokens),
+            Val::str(&self.tok.pad),
+            strs_val(&self.tok.prefix),
+            strs_val(&self.tok.suffix),
+            Val::opt(self.tok.padto, Val::u),
+        ]);
+        Val::L(vec![
+            Val::I(-2),
+            files,
+            Val::I(self.strategy),
+            hl(self.seed),
+            Val::u(self.epoch),
+            pcfg,
+            Val::L(vec![Val::b(self.g), tok]),
+            Val::I(self.lim),
+            Val::u(self.skip),
+            Val::u(self.ff),
+            Val::u(self.rank),
+            Val::u(self.world),
+            Val::b(self.sort),
+            Val::b(self.shuffle),
+            Val::u(self.prefetch),
+            Val::u(self.blim),
+            Val::I(self.ty),
+            Val::u(self.threads as usize),
+            Val::u(self.buffer),
+            Val::u(self.threads2 as usize),
+            Val::u(self.buffer2),
+        ])
+    }
+
+    fn from_val(v: &Val) -> Option<XSpec> {
+        let l = v.as_l()?;
+        if l.len() != 21 {
+            return None;
+        }
+        let mut files = vec![];
+        for f in l[1].as_l()? {
+            let mut lines = vec![];
+            for ln in f.as_l()? {
+                let ln = ln.as_l()?;
+                lines.push(match ln.len() {
+                    0 => None,
+                    2 => Some((ln[0].to_string_lossy()?, ln[1].to_string_lossy()?)),
+                    _ => return None,
+                });
+            }
+            if lines.len() > 40 {
+                return None;
+            }
+            files.push(lines);
+        }
+        if files.is_empty() || files.len() > 4 {
+            return None;
+        }
+        let pc = l[5].as_l()?;
+        if pc.len() != 2 {
+            return None;
+        }
+        let per_source = match pc[0].as_i()? {
+            0 => false,
+            1 => true,
+            _ => return None,
+        };
+        let cfgs: Vec<MCfg> = if per_source {
+            pc[1].as_l()?.iter().map(|c| MCfg::from_val(c, 0)).collect::<Option<_>>()?
+        } else {
+            vec![MCfg::from_val(&pc[1], 0)?]
+        };
+        let task = l[6].as_l()?;
+        if task.len() != 2 {
+            return None;
+        }
+        let t = task[1].as_l()?;
+        if t.len() != 5 {
+            return None;
+        }
+        let padto = match t[4].as_l()? {
+            [] => None,
+            [k] => Some(k.as_usize()?),
+            _ => return None,
+        };
+        let tok = TokSpec { tokens: val_strs(&t[0])?, pad: t[1].to_string_lossy()?, prefix: val_strs(&t[2])?, suffix: val_strs(&t[3])?, padto };
+        if padto.map(|k| k == 0 || k > 64).unwrap_or(false) {
+            return None;
+        }
+        let s = XSpec {
+            files,
+            strategy: l[2].as_i()?,
+            seed: un_hl(&l[3])?,
+            epoch: l[4].as_usize()?,
+            per_source,
+            cfgs,
+            g: task[0].as_bool()?,
+            tok,
+            lim: l[7].as_i()?,
+            skip: l[8].as_usize()?,
+            ff: l[9].as_usize()?,
+            rank: l[10].as_usize()?,
+            world: l[11].as_usize()?,
+            sort: l[12].as_bool()?,
+            shuffle: l[13].as_bool()?,
+            prefetch: l[14].as_usize()?,
+            blim: l[15].as_usize()?,
+            ty: l[16].as_i()?,
+            threads: u8::try_from(l[17].as_usize()?).ok()?,
+            buffer: l[18].as_usize()?,
+            threads2: u8::try_from(l[19].as_usize()?).ok()?,
+            buffer2: l[20].as_usize()?,
+        };
+        if !(0..3).contains(&s.strategy) || !(0..2).contains(&s.ty) || s.seed > 1 << 40 || s.epoch > 1000 {
+            return None;
+        }
+        if s.world == 0 || s.world > 6 || s.rank >= s.world || s.skip > 10_000 || s.ff > 10_000 || s.lim > 10_000 {
+            return None;
+        }
+        if s.threads > 6 || s.threads2 > 6 || s.buffer > 16 || s.buffer2 > 16 || s.prefetch > 64 || s.blim > 100_000 {
+            return None;
+        }
+        Some(s)
+    }
+
+    fn pipeline(&self) -> TrainPipelineConfig {
+        let tok = TokenizerConfig {
+            tokenize: TokenizeConfig::Byte(ByteTokenizerConfig {
+                use_graphemes: false,
+                pad_to_multiple_of: self.tok.padto,
+                groups: ByteGroups::Bytes,
+                aggregation: GroupAggregation::Mean,
+            }),
+            special: SpecialConfig {
+                pad: self.tok.pad.clone(),
+                tokens: self.tok.tokens.clone(),
+                prefix: self.tok.prefix.clone(),
+                suffix: self.tok.suffix.clone(),
+            },
+        };
+        TrainPipelineConfig {
+            preprocessing: if self.per_source {
+                PreprocessingConfig::PerSource(self.cfgs.iter().map(|c| c.to_real()).collect())
+            } else {
+                PreprocessingConfig::Global(self.cfgs[0].to_real())
+            },
+            task: TrainTaskConfig::WhitespaceCorrection(self.g, tok),
+            postprocessing: PostprocessingConfig::Global(PostprocessingFnConfig::None),
+        }
+    }
+}
+
+/// a jsonl line for a line specification; the five ways of not being an item are taken in turn
+fn xline_json(l: &Option<(String, String)>, file: usize, line: usize) -> String {
+    let q = |s: &str| serde_json::to_string(s).unwrap();
+    match l {
+        Some((i, t)) => {
+            if i == t && (file + line) % 3 == 0 {
+                // "target" is optional: it defaults to the input
+                format!("{{\"input\": {}}}", q(i))
+            } else if (file + line) % 2 == 0 {
+                format!("{{\"target\": {}, \"input\": {}, \"extra\": 1}}", q(t), q(i))
+            } else {
+                format!("{{\"input\": {}, \"target\": {}}}", q(i), q(t))
+            }
+        }
+        None => match (file * 3 + line) % 5 {
+            0 => format!("{{\"input\": \"broken {file} {line}"),
+            1 => "{\"target\": \"no input\"}".to_string(),
+            2 => "{\"input\": 5, \"target\": \"x\"}".to_string(),
+            3 => "{\"input\": \"x\", \"target\": [1]}".to_string(),
+            _ => "[\"input\", \"x\"]".to_string(),
+        },
+    }
+}
+
+fn safe_cfg(c: MCfg, g_max: usize) -> MCfg {
+    match c {
+        MCfg::Chain(l) => MCfg::Chain(l.into_iter().map(|c| safe_cfg(c, g_max)).collect()),
+        MCfg::Switch(l, ps) => MCfg::Switch(l.into_iter().map(|c| safe_cfg(c, g_max)).collect(), ps),
+        MCfg::CharSub(n, g) => MCfg::CharSub(n.max(1), g),
+        MCfg::ByteSub(n, g) => MCfg::ByteSub(n.max(g_max), g),
+        c => c,
+    }
+}
+
+fn gen_pipeline_cfg(rng: &mut Rng) -> MCfg {
+    let g = rng.chance(1, 3);
+    let ws = |rng: &mut Rng| MCfg::WsCorrupt(false, *rng.pick(&[0.3, 0.5, 0.1, 1.0, 0.0]), *rng.pick(&[0.4, 0.5, 0.2, 1.0]), g);
+    match rng.below(8) {
+        0 => ws(rng),
+        1 => MCfg::Chain(vec![MCfg::Clean(false, g), MCfg::Clean(true, g), MCfg::Normalize(false, 3, g), ws(rng)]),
+        2 => MCfg::Switch(vec![ws(rng), MCfg::NoWs(false, g), MCfg::FullWs(false, g), MCfg::None], vec![0.3, 0.2, 0.3, 0.2]),
+        3 => MCfg::Chain(vec![MCfg::CharSub(rng.range(3, 12), g), ws(rng)]),
+        4 => MCfg::Chain(vec![MCfg::ByteSub(rng.range(24, 40), g), MCfg::Switch(vec![ws(rng), MCfg::None], vec![0.5, 0.5])]),
+        5 => MCfg::Chain(vec![MCfg::Overwrite(false), MCfg::Mark("k".into(), "v".into()), ws(rng), MCfg::Suffix(true, "".into())]),
+        _ => safe_cfg(gen_cfg(rng, 3), 24),
+    }
+}
+
+fn gen_line(rng: &mut Rng) -> Option<(String, String)> {
+    match rng.below(20) {
+        0 | 1 => None,
+        2 | 3 => {
+            let i = gen_text(rng, 12);
+            let t = if rng.chance(1, 2) { i.clone() } else { gen_text(rng, 12) };
+            Some((i, t))
+        }
+        4 => {
+            // a clean pair that differs in whitespace
+            let t = text_utils::text::clean(&gen_text(rng, 14), true);
+            Some((text_utils::whitespace::remove(&t, true), t))
+        }
+        _ => {
+            let t = text_utils::text::clean(&gen_text(rng, 16), true);
+            Some((t.clone(), t))
+        }
+    }
+}
+
+fn exact_gen(rng: &mut Rng) -> Val {
+    let nfiles = rng.range(1, 3);
+    let strategy = rng.below(3) as i64;
+    let files: Vec<Vec<Option<(String, String)>>> = (0..nfiles)
+        .map(|_| {
+            let n = if strategy == 2 && !rng.chance(1, 30) { rng.range(1, 10) } else { rng.range(0, 10) };
+            (0..n).map(|_| gen_line(rng)).collect()
+        })
+        .collect();
+    let total: usize = files.iter().map(|f| f.len()).sum();
+    let per_source = rng.chance(1, 5);
+    let cfgs: Vec<MCfg> = if per_source { (0..nfiles).map(|_| gen_pipeline_cfg(rng)).collect() } else { vec![gen_pipeline_cfg(rng)] };
+    let world = rng.range(1, 4);
+    let tok = TokSpec {
+        tokens: ["<unk>", "<bos>", "<eos>", "<pad>"].iter().map(|s| s.to_string()).collect(),
+        pad: "<pad>".to_string(),
+        prefix: if rng.chance(1, 2) { vec![] } else { vec!["<bos>".to_string()] },
+        suffix: match rng.below(3) {
+            0 => vec![],
+            1 => vec!["<eos>".to_string()],
+            _ => vec!["<eos>".to_string(), "<pad>".to_string()],
+        },
+        padto: if rng.chance(1, 3) { Some(8) } else { None },
+    };
+    XSpec {
+        files,
+        strategy,
+        seed: if rng.chance(1, 8) { rng.next_u64() >> 24 } else { rng.below(1000) as u64 },
+        epoch: rng.below(3),
+        per_source,
+        cfgs,
+        g: rng.chance(1, 3),
+        tok,
+        lim: if rng.chance(1, 3) { -1 } else { rng.range(0, total + 2) as i64 },
+        skip: if rng.chance(1, 2) { 0 } else { rng.range(0, total / 2 + 1) },
+        ff: if rng.chance(1, 3) { 0 } else { rng.range(0, total / 2 + 1) },
+        rank: rng.below(world),
+        world,
+        sort: rng.chance(1, 3),
+        shuffle: rng.chance(1, 2),
+        prefetch: rng.below(4),
+        blim: if rng.chance(1, 2) { rng.range(0, 6) } else { rng.range(20, 400) },
+        ty: rng.below(2) as i64,
+        threads: rng.below(5) as u8,
+        buffer: rng.below(5),
+        threads2: rng.below(5) as u8,
+        buffer2: rng.below(5),
+    }
+    .to_val()
+}
+
+type XBatches = Vec<Vec<(String, String, Vec<u32>, Vec<i32>)>>;
+
+impl C08 {
+    fn exact_run(&self, input: &Val) -> Option<(Val, Vec<String>)> {
+        let s = XSpec::from_val(input)?;
+        fn neg_switch(c: &MCfg) -> bool {
+            match c {
+                MCfg::Chain(l) => l.iter().any(neg_switch),
+                MCfg::Switch(l, ps) => ps.iter().any(|p| *p < 0.0) || l.iter().any(neg_switch),
+                _ => false,
+            }
+        }
+        if s.cfgs.iter().any(neg_switch) || s.cfgs.is_empty() {
+            return None;
+        }
+        std::fs::create_dir_all(&self.dir).ok()?;
+        let mut paths = vec![];
+        for (fi, f) in s.files.iter().enumerate() {
+            let p = self.dir.join(format!("x{fi}.jsonl"));
+            let mut text = String::new();
+            for (li, l) in f.iter().enumerate() {
+                text.push_str(&xline_json(l, fi, li));
+                // the last line of every second file has no line terminator; now and then CR LF
+                if li + 1 < f.len() || fi % 2 == 0 {
+                    text.push_str(if (fi + li) % 4 == 3 { "\r\n" } else { "\n" });
+                }
+            }
+            std::fs::write(&p, text).ok()?;
+            paths.push(p.to_string_lossy().to_string());
+        }
+        let mut tags = vec!["exact".to_string(), format!("strategy{}", s.strategy), format!("world{}", s.world)];
+        let mut names = vec![];
+        s.cfgs.iter().for_each(|c| c.names(&mut names));
+        tags.extend(names.iter().map(|n| n.to_string()));
+        // no pipeline call may panic: a panic on the buffer thread ends the stream silently, one on a worker thread ends
+        // the process (C09's subject); such configurations are outside this line
+        let pipe = std::panic::catch_unwind(|| train_pipeline(s.pipeline(), 512));
+        reset_panic_hook();
+        if let Ok(Ok((pipe, _))) = &pipe {
+            let seed = s.seed + s.epoch as u64;
+            let mut pos = 0usize;
+            // every line of every file, with every position it could have: the order does not matter for a panic
+            // that depends on (item, seed); check all (position, line) pairs that can occur is too much: use the
+            // real generator order
+            let gens = paths.iter().map(train_data_generator_from_jsonl).collect::<anyhow::Result<Vec<_>>>().ok()?;
+            if let Ok(gen) = MultiTrainDataGenerator::new(gens, strategy_of(s.strategy), Some(seed)) {
+                for (data, file_idx) in gen {
+                    if let Ok(d) = data {
+                        let info = TextDataInfo { file_idx, seed: seed + pos as u64, ..Default::default() };
+                        let pipe = pipe.clone();
+                        if std::panic::catch_unwind(std::panic::AssertUnwindSafe(move || pipe((d, info)))).is_err() {
+                            return None;
+                        }
+                    }
+                    pos += 1;
+                }
+            }
+        }
+        let s2 = s.clone();
+        let out = with_timeout(20_000, move || {
+            let s = &s2;
+            let run = |threads: u8, buffer: usize| -> Result<(Option<usize>, XBatches, Vec<String>), ()> {
+                let args = TrainLoaderArgs {
+                    files: paths.clone(),
+                    pipeline: s.pipeline(),
+                    strategy: strategy_of(s.strategy),
+                    num_threads: threads,
+                    buffer_size: buffer,
+                    batch_limit: s.blim,
+                    batch_limit_type: if s.ty == 0 { BatchLimitType::BatchSize } else { BatchLimitType::PaddedItemSize },
+                    max_length: 512,
+                    shuffle: s.shuffle,
+                    prefetch_factor: s.prefetch,
+                    sort: s.sort,
+                    seed: Some(s.seed),
+                    skip: s.skip,
+                    limit: if s.lim < 0 { None } else { Some(s.lim as usize) },
+                    distributed: Some((s.rank, s.world)),
+                    epoch: s.epoch,
+                    fast_forward: s.ff,
+                };
+                let r = std::panic::catch_unwind(std::panic::AssertUnwindSafe(|| train_loader_batches(args, None)));
+                reset_panic_hook();
+                let (min_items, batches) = match r {
+                    Ok(Ok(x)) => x,
+                    _ => return Err(()),
+                };
+                let mut bs = vec![];
+                let mut tensors = vec![];
+                for (items, t) in batches {
+                    let mut b = vec![];
+                    for it in &items {
+                        let (ids, labels) = match &it.input {
+                            text_utils::data::TrainTaskInput::SequenceClassification { token_ids, labels, .. } => {
+                                (token_ids.clone(), labels.clone())
+                            }
+                            _ => (vec![], vec![]),
+                        };
+                        b.push((it.data.verif_input().to_string(), it.data.verif_target().to_string(), ids, labels));
+                    }
+                    bs.push(b);
+                    tensors.push(format!("{:?}", t));
+                }
+                Ok((min_items, bs, tensors))
+            };
+            let a = run(s.threads, s.buffer);
+            let b = run(s.threads2, s.buffer2);
+            match (a, b) {
+                (Err(()), Err(())) => Val::L(vec![Val::I(0)]),
+                (Ok(a), Ok(b)) => {
+                    let same = a == b;
+                    Val::L(vec![
+                        Val::I(1),
+                        Val::u(a.0.unwrap_or(UNKNOWN_ITEM)),
+                        Val::L(
+                            a.1.iter()
+                                .map(|b| {
+                                    Val::L(
+                                        b.iter()
+                                            .map(|(i, t, ids, labels)| {
+                                                Val::L(vec![
+                                                    Val::str(i),
+                                                    Val::str(t),
+                                                    Val::L(ids.iter().map(|x| Val::I(*x as i64)).collect()),
+                                                    Val::L(labels.iter().map(|x| Val::I(*x as i64)).collect()),
+                                                ])
+                                            })
+                                            .collect(),
+                                    )
+                                })
+                                .collect(),
+                        ),
+                        Val::b(same),
+                    ])
+                }
+                // one run failed to start and the other did not
+                _ => Val::L(vec![Val::I(-779)]),
+            }
+        });
+        let n_items: usize = out
+            .nth(2)
+            .and_then(|v| v.as_l())
+            .map(|bs| bs.iter().map(|b| b.as_l().map(|l| l.len()).unwrap_or(0)).sum())
+            .unwrap_or(0);
+        if s.shuffle {
+            tags.push("shuffle".into());
+        }
+        if s.sort {
+            tags.push("sort".into());
+        }
+        if s.threads > 0 || s.threads2 > 0 {
+            tags.push("threaded".into());
+        }
+        if out.nth(0).and_then(|v| v.as_i()) == Some(0) {
+            tags.push("rejected".into());
+        }
+        if n_items >= 2 && (s.threads > 0 || s.threads2 > 0) {
+            tags.push("nt".into());
+        }
+        Some((out, tags))
+    }
+}
+
 impl Prop for C08 {
     fn gen(&mut self, rng: &mut Rng, _tier: Tier, i: usize, _n: usize) -> Val {
         // one scenario with an oracle table in ten cases; the others are cases over modelled pipelines
-        if i % 10 != 0 {
-            return direct_gen(rng);
+        match i % 10 {
+            0 => (),
+            1 | 2 => return exact_gen(rng),
+            _ => return direct_gen(rng),
         }
         let nfiles = rng.range(1, 3);
         let strategy = rng.below(3) as i64;
@@ -874,7 +1382,7 @@ impl Prop for C08 {
 
     fn canon(&mut self, input: &Val) -> Option<Val> {
         let l = input.as_l()?;
-        if l.first().and_then(|k| k.as_i()) == Some(-1) {
+        if matches!(l.first().and_then(|k| k.as_i()), Some(-1) | Some(-2)) {
             return Some(input.clone());
         }
         if l.len() != 11 {
@@ -903,6 +1411,9 @@ impl Prop for C08 {
         let l = input.as_l()?;
         if l.first().and_then(|k| k.as_i()) == Some(-1) {
             return direct_run(input);
+        }
+        if l.first().and_then(|k| k.as_i()) == Some(-2) {
+            return self.exact_run(input);
         }
         if l.len() != 11 {
             return None;
